@@ -102,7 +102,7 @@ def shape_of(flat, use, landing):
     """syntactic class of a failing (use, landing) pair = which hypothesis of
     goto_same_var_partial it violates"""
     scopes_, occs = flat['scopes'], flat['occs']
-    x, _, s = occs[use]
+    x, _, s = occs[use][:3]
     kind = lambda i: scopes_[i][0]
     par = lambda i: scopes_[i][1]
     ls = occs[landing][2] if landing is not None and landing >= 0 else None
@@ -119,8 +119,17 @@ def shape_of(flat, use, landing):
         # H1: a class scope on the way out is consulted by jedi but invisible to Python
         if kind(s) == K['comp'] and par(s) == ls:
             return 'comprehension-in-class-body-sees-class-attribute'
-        return 'nested-scope-sees-enclosing-class-attribute'
-    before = any(o[0] == x and o[2] == s and o[1] in (0, 4, 5) for o in occs[:use])
+        # only class bodies between the use and the landing class (a function in between is a
+        # different, unknown, violation: methods must not see class attributes)
+        t = s
+        only_classes = kind(s) == K['class']
+        while t != ls and only_classes:
+            t = par(t)
+            only_classes = kind(t) == K['class']
+        if only_classes:
+            return 'nested-class-body-sees-enclosing-class-attribute'
+        return 'function-sees-enclosing-class-attribute'
+    before = any(o[0] == x and o[2] == s and o[1] in (0, 4, 5) for o in occs[:occs[use][3]])
     if kind(s) == K['class'] and binds(s) and not before and not decl(s, 2) and not decl(s, 3) \
             and ls is not None and ls in anc and kind(ls) in (K['function'], K['lambda']):
         # H3: LOAD_NAME in a class body skips enclosing function locals
@@ -141,7 +150,9 @@ def shape_of(flat, use, landing):
 
 # ---------------------------------------------------------------------------- per program
 
-def analyse_program(ctx, prog, reqs, cases, stream_tag):
+def analyse(prog):
+    """pure (picklable) analysis of one program on the real code + CPython: jedi landings, run-time
+    tokens and oracle verdicts. Runs in worker processes."""
     import jedi
     src, occs = G.plain(prog)
     flat = G.flat(prog)
@@ -149,6 +160,7 @@ def analyse_program(ctx, prog, reqs, cases, stream_tag):
     pos2id = {(o['line'], o['col']): o['id'] for o in occs}
     script = jedi.Script(src)
     lands = {}
+    raised = []
     for o in occs:
         if o['role'] in ('def', 'param', 'bind'):
             continue
@@ -156,7 +168,7 @@ def analyse_program(ctx, prog, reqs, cases, stream_tag):
             res = script.goto(o['line'], o['col'])
         except Exception as e:
             cls, site = common.exc_site(e)
-            ctx.count('raised', (src, o['id']), nontrivial=False, bucket='%s@%s' % (cls, site))
+            raised.append((o['id'], '%s@%s' % (cls, site)))
             continue
         ids = []
         for d in res:
@@ -166,61 +178,54 @@ def analyse_program(ctx, prog, reqs, cases, stream_tag):
                 ids.append(-1)      # builtins / outside the buffer
         lands[o['id']] = sorted(ids)
     seen, err, esrc = G.run_executable(prog, occs)
-    reqs.append({'op': 'analyse', 'scopes': [s[:2] for s in flat['scopes']], 'occs': flat['occs']})
-    cases.append({'prog': prog, 'src': src, 'occs': occs, 'flat': flat, 'lands': lands, 'seen': seen,
-                  'tag': stream_tag})
+    seen = {u: sorted(t) for u, t in seen.items()}
+    out = {'prog': prog, 'src': src, 'occs': occs, 'flat': flat, 'lands': lands, 'seen': seen,
+           'raised': raised, 'judged': [], 'fails': [], 'note': None}
     # ---- direct oracle (independent of the model)
     try:
         tables = symtable_owner_table(src, flat)
     except SyntaxError:
-        return
+        tables = []
     if len(tables) != len(flat['scopes']):
-        ctx.notes.append('symtable/scope count mismatch, oracle skipped for one program')
-        return
-    how = 'jedi.Script(source).goto(line, column) vs executing the program'
+        out['note'] = 'symtable/scope count mismatch, oracle skipped for one program'
+        return out
     for u, toks in seen.items():
         if u not in lands:
             continue
-        toks = {t for t in toks}
+        toks = set(toks)
         if any(t < 0 for t in toks):     # unbound at run time / foreign value: no claim
             continue
         if occs[u]['role'] != 'use':
             continue
         owners = {binding_owner(tables, parents, flat['occs'][t][2], occs[t]['name']) for t in toks}
-        ctx.count('oracle', (src, u), nontrivial=True,
-                  bucket='use-in-%s' % ['module', 'function', 'class', 'lambda', 'comp'][flat['scopes'][flat['occs'][u][2]][0]],
-                  sample={'source': src, 'line': occs[u]['line'], 'column': occs[u]['col'],
-                          'runtime_binding_ids': sorted(toks), 'jedi_landing_ids': lands[u]})
+        out['judged'].append(u)
         case = {'source': src, 'line': occs[u]['line'], 'column': occs[u]['col']}
         if not lands[u]:
             # the property demands definitions of the identifier: an executed use with a source
             # binding must land somewhere
-            case['shape'] = shape_of(flat, u, None)
-            ctx.fail('oracle', 'goto returns nothing for an executed use whose value came from a source binding',
-                     case, expected=sorted(toks), observed=[], how=how)
+            out['fails'].append(('goto returns nothing for an executed use whose value came from a source binding',
+                                 dict(case, shape=shape_of(flat, u, None)), sorted(toks), []))
             continue
         for d in lands[u]:
             if d < 0:
-                case['shape'] = 'landing-outside-buffer'
-                ctx.fail('oracle', 'goto lands outside the buffer for a use bound in the buffer', case,
-                         expected=sorted(toks), observed=lands[u], how=how)
+                out['fails'].append(('goto lands outside the buffer for a use bound in the buffer',
+                                     dict(case, shape='landing-outside-buffer'), sorted(toks), lands[u]))
                 continue
             do = flat['occs'][d]
             if occs[d]['name'] != occs[u]['name']:
-                case['shape'] = 'other-identifier'
-                ctx.fail('oracle', 'goto lands on a different identifier', case, observed=occs[d], how=how)
+                out['fails'].append(('goto lands on a different identifier',
+                                     dict(case, shape='other-identifier'), None, occs[d]))
                 continue
             if do[1] == G.ROLES['global']:
                 downer = 0
-            elif do[1] == G.ROLES['nonlocal']:
-                downer = binding_owner(tables, parents, do[2], occs[d]['name'])
             else:
                 downer = binding_owner(tables, parents, do[2], occs[d]['name'])
             if downer not in owners:
-                case['shape'] = shape_of(flat, u, d)
-                ctx.fail('oracle', 'goto lands on a binding of a scope Python did not consult', case,
-                         expected={'runtime_binding': [occs[t] for t in sorted(toks)]},
-                         observed={'landing': occs[d], 'shape': case['shape']}, how=how)
+                sh = shape_of(flat, u, d)
+                out['fails'].append(('goto lands on a binding of a scope Python did not consult',
+                                     dict(case, shape=sh),
+                                     {'runtime_binding': [occs[t] for t in sorted(toks)]},
+                                     {'landing': occs[d], 'shape': sh}))
         # straight-line clause: use and all bindings of its variable in one scope body
         us = flat['occs'][u][2]
         same = [i for i, o in enumerate(flat['occs']) if o[0] == flat['occs'][u][0] and o[1] in (0, 4, 5)]
@@ -229,9 +234,37 @@ def analyse_program(ctx, prog, reqs, cases, stream_tag):
                     o[0] == flat['occs'][u][0] and o[1] in (2, 3) for o in flat['occs']):
             t = next(iter(toks))
             if lands[u] != [t]:
-                case['shape'] = 'straight-line'
-                ctx.fail('oracle', 'straight-line code: goto is not exactly the observed assignment', case,
-                         expected=[t], observed=lands[u], how=how)
+                out['fails'].append(('straight-line code: goto is not exactly the observed assignment',
+                                     dict(case, shape='straight-line'), [t], lands[u]))
+    return out
+
+
+def fix_keys(out):
+    """JSON turns int keys into strings"""
+    out['lands'] = {int(k): v for k, v in out['lands'].items()}
+    out['seen'] = {int(k): v for k, v in out['seen'].items()}
+    out['fails'] = [tuple(f) for f in out['fails']]
+    return out
+
+
+def absorb(ctx, out, reqs, cases, tag):
+    """main-process side: counting, failing, queueing the model request"""
+    how = 'jedi.Script(source).goto(line, column) vs executing the program'
+    flat, occs, src = out['flat'], out['occs'], out['src']
+    for oid, b in out['raised']:
+        ctx.count('raised', (src, oid), nontrivial=False, bucket=b)
+    if out['note']:
+        ctx.notes.append(out['note'])
+    for u in out['judged']:
+        ctx.count('oracle', (src, u), nontrivial=True,
+                  bucket='use-in-%s' % ['module', 'function', 'class', 'lambda', 'comp'][flat['scopes'][flat['occs'][u][2]][0]],
+                  sample={'source': src, 'line': occs[u]['line'], 'column': occs[u]['col'],
+                          'runtime_binding_ids': out['seen'][u], 'jedi_landing_ids': out['lands'][u]})
+    for what, case, exp, obs in out['fails']:
+        ctx.fail('oracle', what, case, expected=exp, observed=obs, how=how)
+    reqs.append({'op': 'analyse', 'scopes': [s[:2] for s in flat['scopes']], 'occs': flat['occs']})
+    out['tag'] = tag
+    cases.append(out)
 
 
 def compare(ctx, cases, answers):
@@ -244,9 +277,11 @@ def compare(ctx, cases, answers):
             ctx.count('goto/' + c['tag'], (c['src'], u), nontrivial=len(model) > 0,
                       bucket='landings=%d' % min(len(model), 3))
             if model != impl:
+                c['disagrees'] = True
                 ctx.tie_broken('correspondence:goto',
                                short({'source': c['src'], 'occ': occs[u], 'jedi': impl, 'model': model}, 1500))
         for u, toks in c['seen'].items():
+            u = int(u)
             for t in toks:
                 if t < 0:
                     continue
@@ -260,36 +295,102 @@ def compare(ctx, cases, answers):
                                           'model_var_use': a['var'][u], 'model_var_binding': a['var'][t]}, 1500))
 
 
+def programs(ctx):
+    rng = ctx.subrng('gen')
+    out = []
+    if ctx.quick:
+        small = list(G.enumerate_small(3))
+        out += [(p, 'exhaustive') for p in small]
+        pool = [p for p in G.enumerate_small(4)][len(small):]
+        out += [(p, 'sampled-small') for p in rng.sample(pool, min(len(pool), 700))]
+        ctx.notes.append('exhaustive stream: all %d module bodies with <= 3 items over names {a, b} '
+                         '(defs, calls, global/nonlocal); plus %d sampled from the %d with exactly 4 items'
+                         % (len(small), min(len(pool), 700), len(pool)))
+        n_random = 250
+    else:
+        small = list(G.enumerate_small(5))
+        out += [(p, 'exhaustive') for p in small]
+        ctx.notes.append('exhaustive stream: all %d module bodies with <= 5 items over names {a, b}' % len(small))
+        ctx.obligations['exhaustive'] = True
+        n_random = 8000
+    for _ in range(n_random):
+        out.append((G.gen_program(rng), 'random'))
+    out += [(p, 'witness') for p in WITNESSES]
+    return out
+
+
 def run(ctx):
     reqs, cases = [], []
-    rng = ctx.subrng('gen')
-    # exhaustive small shapes first
-    limit = ctx.size(4, 5)
-    n_exh = 0
-    cap = ctx.size(1500, 10 ** 9)
-    for prog in G.enumerate_small(limit):
-        n_exh += 1
-        if n_exh > cap:
-            break
-        analyse_program(ctx, prog, reqs, cases, 'exhaustive')
-    ctx.notes.append('exhaustive stream: all module bodies with <= %d items over names {a, b}, one def level: %d programs%s'
-                     % (limit, n_exh, ' (truncated at cap)' if n_exh > cap else ''))
-    for _ in range(ctx.size(250, 6000)):
-        prog = G.gen_program(rng)
-        analyse_program(ctx, prog, reqs, cases, 'random')
-    for prog in WITNESSES:
-        analyse_program(ctx, prog, reqs, cases, 'witness')
+    progs = programs(ctx)
+    if len(progs) > 3000:
+        outs = [fix_keys(o) for o in common.parallel_map('props.c03', 'analyse', [p for p, _ in progs])]
+    else:
+        outs = [analyse(p) for p, _ in progs]
+    for out, (_, tag) in zip(outs, progs):
+        absorb(ctx, out, reqs, cases, tag)
     if ctx.model_ok:
         answers = common.run_driver_parallel('C03', reqs)
         compare(ctx, cases, answers)
     else:
         ctx.notes.append('model did not build: correspondence skipped, oracle only')
+    if (ctx.broken or not ctx.model_ok) and not any(ctx.violations):
+        search(ctx, [c['prog'] for c in cases if c.get('disagrees')])
     ctx.obligations['assumptions'] = [
         'fragment: straight-line bodies, module/function/class/lambda/comprehension scopes, bind/use/global/'
         'nonlocal/param/def; the flat symbol table handed to the model and the printed source are derived from '
         'one abstract program by harness/gen/scopes.py (trusted)',
         'CPython symtable + run-time binding tokens are the ground truth for "the scope Python consulted"',
     ]
+
+
+def variants(prog):
+    """programs around a disagreeing one in which more uses are executed with a source binding:
+    calls of every function appended / moved to the end, bindings of every name added at module
+    level before and after"""
+    names = sorted({o['name'] for o in G.plain(prog)[1]})
+    funcs = []
+
+    def collect(items):
+        for it in items:
+            if it['k'] == 'def':
+                if it['kind'] == 'function':
+                    funcs.append((it['name'], len(it['params'])))
+                collect(it['body'])
+    collect(prog)
+    calls = [{'k': 'call', 'x': f, 'n': n} for f, n in funcs]
+    out = [prog + calls]
+    for x in names:
+        out.append([B(x)] + prog + calls)
+        out.append(prog + [B(x)] + calls)
+        stripped = [it for it in prog if it['k'] != 'call']
+        out.append(stripped + [B(x)] + calls)
+    return out
+
+
+def search(ctx, disagreeing):
+    """failing-input search after a broken proof obligation / correspondence: variants of the
+    disagreeing programs first, then the whole small-scope space, judged by the direct oracle"""
+    cand = []
+    for p in disagreeing[:200]:
+        cand += variants(p)
+    ok = []
+    for p in cand:
+        try:
+            compile(G.plain(p)[0], '<v>', 'exec')
+            ok.append(p)
+        except SyntaxError:
+            pass
+    ok += list(G.enumerate_small(4))
+    outs = [fix_keys(o) for o in common.parallel_map('props.c03', 'analyse', ok)]
+    how = 'jedi.Script(source).goto(line, column) vs executing the program'
+    n = 0
+    for out in outs:
+        for u in out['judged']:
+            ctx.count('search', (out['src'], u), nontrivial=True)
+        for what, case, exp, obs in out['fails']:
+            n += 1
+            ctx.fail('oracle', what, case, expected=exp, observed=obs, how=how)
+    ctx.notes.append('failing-input search: %d programs, %d oracle failures' % (len(ok), n))
 
 
 def D(kind, name, body, params=()):
